@@ -62,6 +62,14 @@ def build(shape):
             if side in ("after", "around"):
                 node.append(shallow[1])
             cur = node
+    if shape.get("shared") and kinds:
+        # one acyclic sub-object referenced twice (below the root and again next to the spine)
+        sh = {"a": [1, {"a": 2}]}
+        if isinstance(cur, dict):
+            cur["x1"] = [sh, sh]
+        else:
+            cur.append([0, sh, {"t": sh}])
+        nesting = max(nesting, 1 + 4)
     if side != "none" and kinds:
         # side branches add at most 2 levels below their parent; they never exceed the spine except near the bottom
         extra = 2 if side in ("after", "around") else 1
@@ -308,6 +316,8 @@ def run_shard(spec, shard):
                      "side": r.choice(["none", "before", "after", "around"])}
             if L > 20:
                 shape["side"] = r.choice(["none", "before"])
+            if L >= 6 and r.random() < 0.2:
+                shape["shared"] = True
         case = {"L": L, "mode": mode, "shape": shape, "below_child": below, "tail": tail,
                 "config": r.choice(["class", "class", "instance", "changed-after-compile"])}
         if excluded_ab(case):
